@@ -10,7 +10,7 @@ use crate::vals;
 pub const RULE: &str = "case = one call of a max/min routine (horizontal, vertical, by-value; every per-backend \
 export, xconst forms, safe functions under each dispatcher mask) on NaN-free inputs, checked against a scalar \
 comparison fold (floats: numerically equal, either zero accepted; empty horizontal = type MIN/MAX or -inf/+inf). \
-Horizontal: for every length of the smart subset and every index k of the longest length the unique extreme is \
+Horizontal: for every length 0..=2*dense+7*lane+tail and every index k of the longest length the unique extreme is \
 placed at index k over a background drawn from five classes (random bits, all-negative, high-half values >= \
 2^(bits-1), boundary values incl. +-inf / MIN / MAX, near-equal values); vertical / by-value: the operand-pair \
 sweep of C02 without NaN (exhaustive pairs for 8-bit, boundary x boundary + random otherwise) at every length. \
@@ -62,8 +62,7 @@ fn horizontal<T: Elem>(ctx: &mut Ctx, t: Target<T>) {
     let pack = pack_len(&t);
     let lens = match (t.r.dims, tier) {
         (Some(d), _) => vec![d],
-        (None, Tier::Quick) => vals::smart_lengths(t.lane, &[]),
-        (None, Tier::Thorough) => (0..=vals::max_len(t.lane)).collect(),
+        (None, _) => (0..=vals::max_len(t.lane)).collect(),
     };
     let mut rng = ctx.rng.split();
     let mut run = Run::new(ctx, t, pack);
